@@ -413,8 +413,12 @@ func (c *Ctx) finish() int {
 		ev["engine_errors"] = c.engineErr
 	}
 	b, _ := json.MarshalIndent(ev, "", " ")
-	os.MkdirAll(filepath.Join(c.VerifDir, "evidence"), 0o755)
-	evp := filepath.Join(c.VerifDir, "evidence", c.ID+".json")
+	evd := filepath.Join(c.VerifDir, "evidence")
+	if d := os.Getenv("VERIF_EVIDENCE_DIR"); d != "" { // self-validation runs against a modified go-git keep their evidence apart
+		evd = d
+	}
+	os.MkdirAll(evd, 0o755)
+	evp := filepath.Join(evd, c.ID+".json")
 	if err := os.WriteFile(evp+".tmp", append(b, '\n'), 0o644); err == nil {
 		os.Rename(evp+".tmp", evp)
 	}
